@@ -128,6 +128,9 @@ type Timer struct {
 	at    int64
 	f     func()
 	armed bool
+	// internal, if set, runs synchronously when the timer fires (deadlines
+	// of derived contexts: no goroutine involved)
+	internal func()
 }
 
 //go:norace
@@ -197,6 +200,10 @@ func fireDue() {
 	timers = keep
 	for _, t := range due {
 		TimersFired++
+		if t.internal != nil {
+			t.internal()
+			continue
+		}
 		if t.f != nil {
 			// (no scheduling point here: the caller may be in the middle of
 			// one; the new task is runnable from the next decision on)
